@@ -1,4 +1,4 @@
-use crate::runtime::failure::{init_panic_hook, persist_failure};
+use crate::runtime::failure::{enter_execution, init_panic_hook, persist_failure};
 use crate::runtime::storage::{StorageKey, StorageMap};
 use crate::runtime::task::clock::VectorClock;
 use crate::runtime::task::labels::Labels;
@@ -146,7 +146,8 @@ impl Execution {
     {
         let state = RefCell::new(ExecutionState::new(config.clone(), Rc::clone(&self.scheduler)));
 
-        init_panic_hook(config.clone());
+        init_panic_hook();
+        let _active_execution = enter_execution(config);
         CurrentSchedule::init(self.initial_schedule.clone());
         UNGRACEFUL_SHUTDOWN_CONFIG.set(config.ungraceful_shutdown_config);
 
